@@ -292,6 +292,15 @@ impl Puppet {
         (tid, parse_ptr(&r[1]))
     }
 
+    /// Start a thread that has a descriptor table of its own (unshare(CLONE_FILES)) holding two extra
+    /// descriptors; afterwards the process's table gets one more descriptor. Returns its tid.
+    pub fn unshared_fd_thread(&mut self) -> Result<i32, String> {
+        let r = self.cmd("unshared_fd_thread")?;
+        let tid: i32 = r[0].parse().map_err(|_| "bad tid".to_string())?;
+        self.extra_tids.push(tid);
+        Ok(tid)
+    }
+
     pub fn pattern(&mut self, pages: usize, tail: &str, prot: &str) -> u64 {
         let r = self.cmd(&format!("pattern {pages} {tail} {prot}")).expect("pattern");
         parse_ptr(&r[0])
